@@ -455,8 +455,8 @@ func c03Units(ctx *core.Ctx) []core.Unit {
 		c := conf()
 		defer vsched.SetNumCPU(0)
 		vsched.SetNumCPU(2)
-		vsched.FamilyAffinity = true
-		defer func() { vsched.FamilyAffinity = false }()
+		vsched.FamilyAffinity, vsched.PostPoints = true, true
+		defer func() { vsched.FamilyAffinity, vsched.PostPoints = false, false }()
 		polys := polyAlphabet(ctx.Seed)
 		s3 := stmt{label: "vt", zs: []int{5, 200, 5}, polys: []namedPoly{polys[10], polys[12], polys[13]}}
 		s3b := stmt{label: "third", zs: []int{1, 2, 3}, polys: []namedPoly{polys[12], polys[13], polys[11]}}
